@@ -408,10 +408,12 @@ class RVData:
 
         if t_ref is None:
             # no reference epoch (t_ref=False): times are relative to BMJD 0
-            dt = (self._t_bmjd - self._t_ref_bmjd) * u.day
+            # (in double precision also for single-precision epochs: at BMJD
+            # ~5e4 a float32 resolves 1/256 d)
+            dt = (np.asarray(self._t_bmjd, dtype=np.float64) - self._t_ref_bmjd) * u.day
         else:
             dt = self.t - t_ref
-        return (dt / P) % 1.0
+        return (dt / u.Quantity(P, dtype=np.float64)) % 1.0
 
     @deprecated_renamed_argument("phase_fold", "phase_fold_period", "v1.3")
     def plot(
